@@ -8,7 +8,7 @@ EXTENDS Integers, Sequences, FiniteSets, TLC, Json, IOUtils
 CONSTANTS Enforce
 Trace == ndJsonDeserialize(IOEnv.TRACE)
 VARIABLES l,
-  conns,    \* conn -> [closed, peerClosed, up]
+  conns,    \* conn -> [closed, peerClosed: "no" | "closed" | "failed" (the harness made its Recv fail), up]
   svcs,     \* svc  -> [asg: "-"|"ok"|"fail", fin, conn, running]
   ctxdone, accerr, loopret, hcanc
 vars == <<l, conns, svcs, ctxdone, accerr, loopret, hcanc>>
@@ -22,7 +22,7 @@ Reset == IsEvent("Reset") /\ conns' = EmptyFn /\ svcs' = EmptyFn /\ ctxdone' = F
 
 AcceptRet == /\ IsEvent("AcceptRet") /\ Ev.conn \notin DOMAIN conns
              /\ Imp("C20", loopret = "none")
-             /\ conns' = [c \in DOMAIN conns \cup {Ev.conn} |-> IF c = Ev.conn THEN [closed |-> FALSE, peerClosed |-> FALSE, up |-> FALSE] ELSE conns[c]]
+             /\ conns' = [c \in DOMAIN conns \cup {Ev.conn} |-> IF c = Ev.conn THEN [closed |-> FALSE, peerClosed |-> "no", up |-> FALSE] ELSE conns[c]]
              /\ UNCHANGED <<svcs, ctxdone, accerr, loopret, hcanc>>
 AcceptErr == /\ IsEvent("AcceptErr") /\ accerr' = Ev.kind
              /\ UNCHANGED <<conns, svcs, ctxdone, loopret, hcanc>>
@@ -59,8 +59,11 @@ HExit == /\ IsEvent("HExit") /\ Ev.svc \in DOMAIN svcs
          /\ UNCHANGED <<conns, ctxdone, accerr, loopret, hcanc>>
 
 PeerClose == /\ IsEvent("PeerClose") /\ Ev.ch \in DOMAIN conns
-             /\ conns' = [conns EXCEPT ![Ev.ch].peerClosed = TRUE]
+             /\ conns' = [conns EXCEPT ![Ev.ch].peerClosed = IF @ = "no" THEN "closed" ELSE @]    \* the first of the two is what Recv reports
              /\ UNCHANGED <<svcs, ctxdone, accerr, loopret, hcanc>>
+ConnFail == /\ IsEvent("ConnFail") /\ Ev.ch \in DOMAIN conns     \* the harness makes the connection's Recv fail
+            /\ conns' = [conns EXCEPT ![Ev.ch].peerClosed = IF @ = "no" THEN "failed" ELSE @]
+            /\ UNCHANGED <<svcs, ctxdone, accerr, loopret, hcanc>>
 ChClose == /\ IsEvent("ChClose")
            /\ IF Ev.ch \in DOMAIN conns
               THEN /\ Imp("C10", ~conns[Ev.ch].closed)
@@ -75,9 +78,12 @@ Finish ==
      /\ Imp("C20", s.asg = "ok")                               \* never for a service whose Assigner failed
      /\ Imp("C20", Ev.asg = Ev.svc)                            \* with the assigner that very service returned
      /\ Imp("C20", s.conn # "" /\ conns[s.conn].closed /\ s.running = 0)   \* after its server has fully exited
-     /\ Imp("C20", Ev.err = "nil" /\ (Ev.stopped # Ev.closed))
-     /\ Imp("C20", Ev.stopped => ctxdone)                      \* that server's own exit status
-     /\ Imp("C20", (Ev.closed /\ s.conn # "") => conns[s.conn].peerClosed)
+     \* that server's own exit status: exactly one of stopped / closed / error, and one whose cause has occurred
+     /\ Imp("C20", Cardinality({x \in {"stopped", "closed", "err"} :
+                        (x = "stopped" /\ Ev.stopped) \/ (x = "closed" /\ Ev.closed) \/ (x = "err" /\ Ev.err # "nil")}) = 1)
+     /\ Imp("C20", Ev.stopped => ctxdone)
+     /\ Imp("C20", (Ev.closed /\ s.conn # "") => conns[s.conn].peerClosed = "closed")
+     /\ Imp("C20", (Ev.err # "nil" /\ s.conn # "") => conns[s.conn].peerClosed = "failed")
   /\ svcs' = [svcs EXCEPT ![Ev.svc].fin = @ + 1]
   /\ UNCHANGED <<conns, ctxdone, accerr, loopret, hcanc>>
 
@@ -105,7 +111,7 @@ Other == /\ l <= Len(Trace) /\ Ev.ev \in {"SB", "SE", "RB", "RE", "CB", "CE", "S
 Terminal == /\ l <= Len(Trace) /\ Ev.ev \in {"Crash", "Deadlock", "Leak"} /\ "C20" \notin Enforce
             /\ l' = l + 1 /\ UNCHANGED <<conns, svcs, ctxdone, accerr, loopret, hcanc>>
 Next == Reset \/ AcceptRet \/ AcceptErr \/ CtxCancel \/ NewService \/ AssignerRet \/ ServerUp \/ HStart \/ HCancel \/ HExit
-        \/ PeerClose \/ ChClose \/ Finish \/ LoopRet \/ Quiescent \/ Final \/ Other \/ Terminal
+        \/ PeerClose \/ ConnFail \/ ChClose \/ Finish \/ LoopRet \/ Quiescent \/ Final \/ Other \/ Terminal
 Spec == Init /\ [][Next]_vars
 ASSUME TLCSet(1, 0)
 Track == TLCSet(1, IF TLCGet(1) < l THEN l ELSE TLCGet(1))
